@@ -99,6 +99,7 @@ type callrec struct {
 
 	bindReqKey string
 	replyKeys  []string
+	nilInSubs  bool // the reply's repeated message field holds a nil element
 }
 
 // boundKeys is the reference extraction of the keys a successful BIND binds.
@@ -113,6 +114,11 @@ func (c *callrec) boundKeys() []string {
 		}
 		return c.replyKeys[:1]
 	case "keys":
+		return c.replyKeys
+	case "subs.key":
+		if c.nilInSubs {
+			return nil // a nil nested message is an error: the reply binds nothing, not even the keys in front of it
+		}
 		return c.replyKeys
 	}
 	return nil
@@ -1050,6 +1056,9 @@ func (w *world) pickReturned(pp *pendingPick, out pickOut, keyed, refErr bool, R
 			w.fail("C02", "A.pick.7", "%s: placement without completion callback", what)
 		}
 	}
+	if traceOn {
+		fmt.Fprintf(os.Stderr, "TRACE step %d %s -> placed=%d err=%v | %s\n", w.step, what, placed, err, w.describe())
+	}
 	// rule 1
 	if (err == balancer.ErrTransientFailure) != (p.state == connectivity.TransientFailure) {
 		w.fail("C04", "A.pick.1", "%s: picker published with %v returned err=%v", what, p.state, err)
@@ -1376,6 +1385,25 @@ func (w *world) doDone(ci, outcome, rep int, replyKeys []int) {
 				}
 				r.Keys = ks
 				r.Sub = &Msg{Key: r.Key}
+				r.Subs = nil
+				for _, k := range ks {
+					r.Subs = append(r.Subs, &Msg{Key: k})
+				}
+				if rep == 2 {
+					sum := 0
+					for _, k := range replyKeys {
+						sum += k
+					}
+					if len(r.Subs) >= 2 && sum%2 == 1 {
+						r.Subs = append(r.Subs[:1], append([]*Msg{nil}, r.Subs[1:]...)...)
+					} else {
+						r.Subs = append(r.Subs, nil)
+					}
+					c.nilInSubs = true
+					if c.m.Path == "subs.key" {
+						w.labels["bind-reply-with-a-nil-element-after-good-ones"]++
+					}
+				}
 			}
 		}
 		c.replyKeys = ks
@@ -1565,6 +1593,9 @@ func (w *world) opAdv(op *Op) {
 }
 
 var epoch time.Time
+
+// traceOn (env VERIF_TRACE): every pick result is printed (debugging aid for hand-made cases).
+var traceOn = os.Getenv("VERIF_TRACE") != ""
 
 func bubbleEpoch() time.Time { return epoch }
 
